@@ -4,7 +4,8 @@ PROPS = {}
 _HIST_RULE = (
     "histories of 10-40 (thorough: 10-80) steps over up to 3 pools (btc, eth, usdt against stake) by 3 users and a "
     "separate recipient: swaps (sell/buy, single/double hop, recipient = / != sender), two-sided and one-sided "
-    "add/remove, donations and transfers (bank MsgSend, also of LPT and to not-yet-created pool addresses), block "
+    "add/remove, donations and transfers (bank MsgSend, also of LPT and to not-yet-created pool addresses), swap "
+    "recipients that are pool escrow addresses, MsgUpdateParams in mid-history (authority / strangers / out-of-range values), block "
     "boundaries; per-history module parameters (fee, one-sided fee, tax, creation fee incl. boundary values); "
     "amounts of a per-history magnitude class up to 2^128, chosen relative to the real reserves; bounds at exact, "
     "exact+-1, loose; deadlines at now, now-1, 0; ~10% malformed or refused messages; "
@@ -33,8 +34,8 @@ PROPS["C01"] = dict(
              4: "an exact-output leg charged more than one unit above the minimum the rule allows"},
     trusted_base=["cosmossdk.io/math Int/LegacyDec restated in Base/Dec.v; SDK bank modelled as a ledger"],
     assumptions=["senders of messages are not pool escrow addresses (nobody holds their keys)",
-                 "fee parameters in range: 0 <= fee < 1, 0 <= unilateral fee <= 1 (Inv); parameters constant along a history "
-                 "(MsgUpdateParams not modelled)"],
+                 "fee parameters in range at genesis: 0 <= fee < 1, 0 <= unilateral fee <= 1 (Inv; MsgUpdateParams is a step "
+                 "of the model and keeps them in range)"],
 )
 
 PROPS["C02"] = dict(
@@ -50,7 +51,7 @@ PROPS["C02"] = dict(
          "bound within 1 of the amount moved; distinct = by hash of the history",
     codes={1: "coinswap.failed-message-changed-state", 2: "coinswap.swap.balance-sheet", 3: "coinswap.swap.bound-or-deadline",
            4: "coinswap.liquidity.balance-sheet", 5: "coinswap.liquidity.bound-or-deadline", 6: "coinswap.supply-frame",
-           7: "coinswap.registry", 8: "coinswap.bystander-step"},
+           7: "coinswap.registry", 8: "coinswap.bystander-step", 9: "coinswap.params"},
     explain={1: "a rejected or aborted message left a trace in the ledger, supplies or registry",
              2: "after a successful swap some account other than sender (-sold), recipient (+bought) and the pools "
                 "involved changed, or the intermediate standard coin did not net to zero",
@@ -58,7 +59,9 @@ PROPS["C02"] = dict(
              4: "a liquidity message moved coins other than deposit/withdrawal, LPT mint/burn and the creation fee",
              5: "a liquidity message succeeded outside the user's bounds or after its deadline",
              6: "a total supply changed other than by LPT mint/burn or the burned part of the creation fee",
-             7: "the pool registry changed unexpectedly", 8: "a plain transfer or block boundary changed something else"},
+             7: "the pool registry changed unexpectedly", 8: "a plain transfer or block boundary changed something else",
+             9: "the module parameters changed other than by a valid MsgUpdateParams of the authority, or such a "
+                "message moved coins / did not store what it says"},
     trusted_base=["cosmossdk.io/math Int/LegacyDec restated in Base/Dec.v; SDK bank modelled as a ledger"],
     assumptions=["senders of messages are not pool escrow addresses (nobody holds their keys)",
                  "check_predicate_holds_on_model_step / lpt_mint_burn_only_against_reserves: signer is not a module account, "
